@@ -64,10 +64,17 @@ func TestVerifRecC16(t *testing.T) {
 		}
 		done := make(chan [2]*EdwardsPoint, 1)
 		xa := vexpand(g, A)
+		aliasSmall := make(chan [3]bool, 1)
 		go func() {
 			var o1, o2 EdwardsPoint
 			o1.TripleScalarMulBasepointVartime(a, A, sb, &C)
 			o2.ExpandedTripleScalarMulBasepointVartime(a, xa, sb, &C)
+			// aliased receivers: the receiver is A, is C (plain and expanded); the small-order verdict must be the same
+			pa, pc, pcx := *A, C, C
+			pa.TripleScalarMulBasepointVartime(a, &pa, sb, &C)
+			pc.TripleScalarMulBasepointVartime(a, A, sb, &pc)
+			pcx.ExpandedTripleScalarMulBasepointVartime(a, xa, sb, &pcx)
+			aliasSmall <- [3]bool{pa.IsSmallOrder(), pc.IsSmallOrder(), pcx.IsSmallOrder()}
 			done <- [2]*EdwardsPoint{&o1, &o2}
 		}()
 		e := vev{"op": "tsm", "cfg": cfg, "a": vb(ab), "b": vb(bb[:]), "A": vpt(vev{}, A), "C": vpt(vev{}, &C), "holds": holds}
@@ -75,6 +82,8 @@ func TestVerifRecC16(t *testing.T) {
 		case o := <-done:
 			e["out"], e["outx"] = vpt(vev{}, o[0]), vpt(vev{}, o[1])
 			e["small"], e["smallx"] = o[0].IsSmallOrder(), o[1].IsSmallOrder()
+			al := <-aliasSmall
+			e["smallRecvA"], e["smallRecvC"], e["smallRecvCx"] = al[0], al[1], al[2]
 			e["timeout"] = false
 			w.emit(e)
 		case <-time.After(90 * time.Second): // the operation takes well under a millisecond; the margin is for a heavily loaded machine
